@@ -480,7 +480,8 @@ func (u *Union) getLookup(th *Thread, dir Dir) Row {
 				if row == nil {
 					break
 				}
-				if !u.source2Has(th, row) {
+				// disjoint sources have no common rows, so no lookups
+				if u.disjoint != "" || !u.source2Has(th, row) {
 					return JoinRows(row, u.empty2)
 				}
 			}
